@@ -9,6 +9,7 @@ indirect `Length` needs the whole document), the `fallback` mode, a `stream` key
 operand stack, PSEOF while reading the `stream` line.
 -/
 import PdfVerif.Model.StackParser
+import PdfVerif.Model.Filters
 
 namespace PdfVerif.ObjParser
 open PdfVerif PdfVerif.Lexer PdfVerif.StackParser
@@ -114,5 +115,74 @@ def getobjBytes (b : Nat) (objid : Int) (data : Bytes) : GetObj :=
         else getobjLoop b data ((data.length + 2) * (data.length + 2) + toks.length) {} rest
       | _ => .raised "unmodelled"
     | _ => .notFound
+
+/-! ### `getobj` with the `stream` branch delegated to C03's model `Filters.streamRead` (round 6c) -/
+
+/-- tokens before the first `stream` keyword, its position, (nothing of what follows: the bytes behind the
+    keyword are payload, not tokens) -/
+def splitAtStream : List PTok → Option (List PTok × Nat)
+  | [] => none
+  | (p, t) :: r =>
+    if t == Token.kwd kwStream then some ([], p)
+    else match splitAtStream r with
+      | some (bs, q) => some ((p, t) :: bs, q)
+      | none => none
+
+def resultOf (st : PState) : GetObj :=
+  match st.error with
+  | some e => .raised e
+  | none =>
+    match st.results with
+    | o :: _ => .ok o
+    | [] => .notFound
+
+/-- `getobj` on the bytes at the object's offset.  Up to the `stream` keyword the tokens are fed to
+    `PDFParser` (`nextobjectP`); at the keyword (no container open, a dictionary on top of the stack, a direct
+    non-negative or missing `Length`) the raw data and the position to resume at come from
+    `Filters.streamRead` (C03's model of that branch of `PDFParser.do_keyword`), the tokenizer restarts
+    there and the tokens are fed on.  A second `stream` keyword is not modelled. -/
+def getobjS (b : Nat) (objid : Int) (data : Bytes) : GetObj :=
+  match run b data with
+  | none => .raised "fuel"
+  | some toks =>
+    match splitAtStream toks with
+    | none => getobjToks objid (toks.map (·.2))
+    | some (before, pos) =>
+      match before.map (·.2) with
+      | t1 :: _ :: t3 :: rest =>
+        match t1 with
+        | .int n =>
+          if n != objid then .raised "unmodelled"
+          else if t3 != Token.kwd kwObj then .notFound
+          else
+            match nextobjectP {} rest with
+            | some st => resultOf st                      -- complete (or failed) before the keyword
+            | none =>
+              let st := feedAllWith objDialect {} rest
+              if !st.context.isEmpty then .raised "unmodelled" else
+              match st.curstack.reverse with
+              | .dict es :: below =>
+                let len? : Option (Option Int) :=
+                  match lookupLength es with
+                  | none => some none
+                  | some (.int v) => if v < 0 then none else some (some v)
+                  | some (.ref _) => none
+                  | some (.bool _) => none
+                  | some _ => some (some 0)
+                match len? with
+                | none => .raised "unmodelled"
+                | some len =>
+                  match Filters.streamRead false data pos len with
+                  | .error _ => .raised "unmodelled"
+                  | .ok (raw, q) =>
+                    match run b (data.drop q) with
+                    | none => .raised "fuel"
+                    | some ts =>
+                      match nextobjectP { st with curstack := below.reverse ++ [.stream es raw] } (ts.map (·.2)) with
+                      | some st' => resultOf st'
+                      | none => .notFound
+              | _ => .raised "unmodelled"
+        | _ => .raised "unmodelled"
+      | _ => .notFound
 
 end PdfVerif.ObjParser
